@@ -233,8 +233,31 @@ def probe_prices(spec):
     rs = np.random.RandomState(seed_of(spec, 'inj'))
     nidx = [i for i, t in enumerate(op.cType) if t == 'N']
     o['injections'] = []
-    if not nidx:
+    rec = list(op.map_nodal_restr or [])
+    if not nidx or not rec:
         return o
+    # the nodal row of (step, node) is identified through the mapping, not through its position
+    rows = o['problem']['rows']
+    mp = op.mapping
+    for _ in range(int(spec.get('opts', {}).get('n_inj', 3))):
+        k = int(rs.randint(0, len(rec)))
+        t, node = rec[k]
+        want = sorted(set(int(i) for i in mp.index[(mp['type'] == 'd') & (mp['node'] == node) & (mp['time_step'] == t)]))
+        cand = [i for i in nidx if sorted(rows[i][0]) == want]
+        d = float(rs.choice([-2.0, -0.5, -0.125, 0.125, 0.5, 2.0]))
+        if len(cand) != 1:
+            o['injections'].append({'k': k, 'step': int(t), 'node': str(node), 'd': d, 'value': None, 'status': 'no unique nodal row'})
+            continue
+        i = cand[0]
+        b0 = op.b[i]
+        op.b[i] = b0 - d          # sum disp + d = 0
+        try:
+            r = op.optimize()
+        finally:
+            op.b[i] = b0
+        o['injections'].append({'k': k, 'step': int(t), 'node': str(node), 'd': d,
+                                'value': None if isinstance(r, str) else float(r.value), 'status': r if isinstance(r, str) else 'optimal'})
+    return o
     for _ in range(int(spec.get('opts', {}).get('n_inj', 3))):
         k = int(rs.randint(0, len(nidx)))
         d = float(rs.choice([-2.0, -0.5, -0.125, 0.125, 0.5, 2.0]))
